@@ -165,6 +165,12 @@ def programs(tier: str):
             for cctx in ("none", "scope"):
                 yield {"family": "traced", "sig": "a", "form": 0, "input": inp, "outcome": outcome, "ctx": cctx}
         yield {"family": "asynchronous", "sig": "a", "form": 0, "kind": "function", "outcome": outcome, "executor": "default", "ctx": "scope"}
+    # the wrapped function is called while the caller is handling an unrelated exception
+    for outcome in ("value", "raise", "float-third"):
+        for inp in ("sync", "async"):
+            yield {"family": "traced", "sig": "a", "form": 0, "input": inp, "outcome": outcome, "ctx": "scope", "in_except": True}
+            yield {"family": "wrap_async", "sig": "a", "form": 0, "input": inp, "outcome": outcome, "ctx": "scope", "in_except": True}
+        yield {"family": "asynchronous", "sig": "a", "form": 0, "kind": "function", "outcome": outcome, "executor": "default", "ctx": "scope", "in_except": True}
     for kind in ("function", "method"):
         for executor in ("explicit+loop", "loop"):
             for outcome in ("value", "raise"):
@@ -573,6 +579,10 @@ def _method_copy(program, ch: Chooser) -> Result:
         w.close()
 
 
+class CallerBusyErr(Exception):
+    pass
+
+
 def _method_together(program, ch: Chooser) -> Result:
     """the method is looked up on SEVERAL instances within one step (gather / create_task over
     objects), the calls run afterwards: each call belongs to the instance it was looked up on"""
@@ -786,7 +796,14 @@ def execute(program, ch: Chooser) -> Result:  # noqa: C901, PLR0912, PLR0915
 
         async def main():
             cctx = program.get("ctx", "none")
-            if cctx == "none":
+            if program.get("in_except"):
+                # the call is made while the caller is handling another error of its own
+                try:
+                    raise CallerBusyErr("the caller's own error, being handled")
+                except CallerBusyErr:
+                    async with ctx.scope("caller", a1, completion=cb("caller")):
+                        await call()
+            elif cctx == "none":
                 await call()
             elif cctx == "scope":
                 async with ctx.scope("caller", a1, completion=cb("caller")):
